@@ -117,7 +117,7 @@ def objId : Val → Option Nat
   | _ => none
 
 /-- `data.(objects.ServerDHParams)`: the two types implementing the interface -/
-def isServerDHParams (v : Val) : Bool := objId v == some idDHOk || objId v == some idDHFail
+def isServerDHParams (v : Val) : Bool := objId v == some idDHFail || objId v == some idDHOk
 
 /-- `data.(objects.SetClientDHParamsAnswer)`: the three types implementing the interface -/
 def isSetClientDHAnswer (v : Val) : Bool :=
